@@ -9,6 +9,7 @@ from ..viol import Violation, require
 ID = 'C16'
 LEVEL = 'exploration'
 RULE = (
+    'Variable names include legal names spelled like the keywords of the format (mode, add, ids, ver, nvars, dd ...); some loads are preceded by a load of a damaged file that fails. '
     'R: the harness writes text-mode DDDMP files from Hypothesis-drawn '
     'parameters: 1-3 root functions over <=5 named variables (reduced DAG '
     'with complemented else-edges only, taken from a scratch manager and '
@@ -34,6 +35,10 @@ ASSUMPTIONS = [
 ]
 
 VARNAMES = ['a', 'b1', 'c_2', "d'", 'E.x']
+# legal names that are spelled like the format's keywords (without the
+# leading dot)
+KEYWORDISH = ['mode', 'add', 'ids', 'ver', 'nvars', 'dd', 'nnodes',
+              'rootids', 'permids', 'T']
 EXTRA = ['u0', 'u1', 'u2']
 
 
@@ -48,7 +53,14 @@ def plan(tier, seed):
 def write_file(case, path):
     """Returns (names universe, expected root tables, text, nontrivial)."""
     n = case['n']
-    nm = tuple(VARNAMES[:n])
+    nm = list(VARNAMES[:n])
+    kw = case.get('kw', 0)
+    for k_ in range(n):
+        if (kw >> k_) & 1:
+            nm[k_] = KEYWORDISH[(kw + 2 * k_) % (len(KEYWORDISH) - 1)]
+    if len(set(nm)) < n:
+        nm = list(VARNAMES[:n])
+    nm = tuple(nm)
     order = [nm[i] for i in case['order']]
     F = tt.full(n)
     b = fix.new_bdd(order)
@@ -175,6 +187,30 @@ def write_file(case, path):
 def check_case(case, cwd):
     import dd.dddmp as _dddmp
     path = os.path.join(cwd, 'g.dddmp')
+    if case.get('poison'):
+        # a load that fails first (truncated / damaged file): the next,
+        # valid load must not be affected by it
+        other = dict(case, poison=0, n=max(1, (case['n'] + 1) % 6),
+                     layout='ordered', extra=2,
+                     roots=[r_ + 1 for r_ in case['roots']])
+        other['order'] = list(range(other['n']))
+        _, _, text2, _, _ = write_file(other, path)
+        lines2 = text2.split('\n')
+        k2 = case['poison'] % len(lines2)
+        mode2 = case['poison'] % 3
+        if mode2 == 0:
+            lines2 = lines2[:max(3, k2)]
+        elif mode2 == 1:
+            lines2[-3] = '9 zz 9 1 1'
+        else:
+            lines2.insert(max(4, k2), '.nosuchkeyword 1')
+        with open(path, 'w') as f2:
+            f2.write('\n'.join(lines2) + '\n')
+        try:
+            _dddmp.load(path)
+        except Exception:
+            pass
+        os.remove(path)
     nm, want, text, decl, nt = write_file(case, path)
     try:
         bdd = _dddmp.load(path)
@@ -224,6 +260,8 @@ def run_random(spec, out):
             gaps=draw(st.lists(st.integers(0, 2), min_size=1, max_size=6)),
             varinfo=draw(st.sampled_from([0, 1, 3])),
             version=draw(st.sampled_from([1, 2])),
+            kw=draw(st.sampled_from([0, 0, 0, 1, 2, 3, 5, 9, 31])),
+            poison=draw(st.sampled_from([0, 0, 1, 2, 3, 4, 7, 11, 14])),
             comments=draw(st.booleans()))
 
     @hypothesis.seed(spec['seed'])
